@@ -203,7 +203,7 @@ def ensure_harness(name, variant, sources, extra_flags=(), extra_ld=(), repo=Non
         errs = compile_many(jobs)
         if errs:
             raise BuildError("\n".join(errs))
-        rc, o = _run([cxx] + ld + list(extra_ld) + objs + [lib] + LIBS + ["-o", out])
+        rc, o = _run([cxx] + ld + objs + [lib] + LIBS + list(extra_ld) + ["-o", out])
         if rc:
             raise BuildError(o)
         open(stamp, "w").write(fp)
